@@ -643,10 +643,14 @@ class PLSSDesc:
         # ----------------------------------------
         # Lock down parameters for this parse.
 
-        require_colon = self.require_colon
-        if sec_colon_required is not None:
-            require_colon = self.sec_colon_required
-        elif sec_colon_cautious:
+        # Same logic as the `.require_colon` property, but either setting
+        # may be overridden by the corresponding parameter.
+        if sec_colon_required is None:
+            sec_colon_required = self.sec_colon_required
+        if sec_colon_cautious is None:
+            sec_colon_cautious = self.sec_colon_cautious
+        require_colon = sec_colon_required
+        if sec_colon_cautious and not sec_colon_required:
             require_colon = SecFinder.SEC_COLON_CAUTIOUS
 
         if not default_ns:
